@@ -18,6 +18,11 @@ import (
 
 var verifDir = "/verif"
 
+// repoDir is /repo for every registered command; VERIF_REPO redirects it (together with
+// VERIF_DIR and a harness go.mod that replaces plush by the same directory) when a
+// seeded change is tried in a scratch worktree without touching /repo.
+var repoDir = "/repo"
+
 func goEnv() []string {
 	return append(os.Environ(), "GOFLAGS=-mod=mod", "GOPROXY=off", "GOSUMDB=off", "GOTOOLCHAIN=local", "CGO_ENABLED=0")
 }
@@ -26,7 +31,7 @@ func harnessDir() string { return filepath.Join(verifDir, "harness") }
 
 // prepareHarnessModule copies /repo/go.sum (the harness module replaces plush by /repo).
 func prepareHarnessModule() {
-	data, err := os.ReadFile("/repo/go.sum")
+	data, err := os.ReadFile(filepath.Join(repoDir, "go.sum"))
 	if err == nil {
 		os.WriteFile(filepath.Join(harnessDir(), "go.sum"), data, 0o644)
 	}
@@ -86,12 +91,12 @@ func loadWorld(patterns []string, tier int, property string) (*World, time.Durat
 }
 
 func repoHead() string {
-	out, err := exec.Command("git", "-C", "/repo", "rev-parse", "--short", "HEAD").Output()
+	out, err := exec.Command("git", "-C", repoDir, "rev-parse", "--short", "HEAD").Output()
 	if err != nil {
 		return "?"
 	}
 	h := strings.TrimSpace(string(out))
-	st, _ := exec.Command("git", "-C", "/repo", "status", "--porcelain").Output()
+	st, _ := exec.Command("git", "-C", repoDir, "status", "--porcelain").Output()
 	if len(strings.TrimSpace(string(st))) > 0 {
 		h += "+dirty"
 	}
